@@ -225,7 +225,14 @@ chars_body!(chars_uri_segment, uri::Segment, mk_uri_segment);
 chars_body!(chars_iri_segment, iri::Segment, mk_iri_segment);
 chars_body!(chars_uri_query, uri::Query, mk_uri_query);
 
-// @h prop=C19 tier=quick kind=check timeout=2400 mem=20 bound="uri::Segment <= 4 bytes (one escape + one byte) vs any UTF-8 text <= 2 bytes" encodes="PctStr::{chars,len,eq<str>};pct_str::Chars::next;utf8_decode::Decoder"
+// @h prop=C19 tier=quick kind=check timeout=2400 mem=20 bound="uri::Segment <= 3 bytes (one escape) vs any UTF-8 text <= 1 byte" encodes="PctStr::{chars,len,eq<str>};pct_str::Chars::next;utf8_decode::Decoder"
+#[cfg_attr(kani, kani::proof)]
+#[cfg_attr(kani, kani::unwind(5))]
+pub fn c19_chars_uri_segment_n3() {
+    chars_uri_segment::<3, 1>()
+}
+
+// @h prop=C19 tier=thorough kind=check timeout=2400 mem=30 bound="uri::Segment <= 4 bytes (one escape + one byte) vs any UTF-8 text <= 2 bytes" encodes="PctStr::{chars,len,eq<str>};pct_str::Chars::next;utf8_decode::Decoder"
 #[cfg_attr(kani, kani::proof)]
 #[cfg_attr(kani, kani::unwind(6))]
 pub fn c19_chars_uri_segment_n4() {
